@@ -2013,8 +2013,22 @@ handle_full_packet(int tun_fd, struct dnsfd *dns_fds, int userid)
 	users[userid].inpacket.offset = 0;
 }
 
+/* The raw handlers keep the sender's address in .q. A DNS query may still be
+   waiting there (the client carried on in DNS mode, this datagram is late):
+   answer it first. A query that is dropped without an answer is in no
+   memory, and its copies would be processed as new queries. */
 static void
-handle_raw_login(char *packet, int len, struct query *q, int fd, int userid)
+answer_waiting_query(struct dnsfd *dns_fds, int userid)
+{
+	if (users[userid].q.id != 0) {
+		int dns_fd = get_dns_fd(dns_fds, &users[userid].q.from);
+		send_chunk_or_dataless(dns_fd, userid, &users[userid].q);
+	}
+}
+
+static void
+handle_raw_login(char *packet, int len, struct query *q, int fd,
+		 struct dnsfd *dns_fds, int userid)
 {
 	char myhash[16];
 
@@ -2039,6 +2053,7 @@ handle_raw_login(char *packet, int len, struct query *q, int fd, int userid)
 	if (memcmp(packet, myhash, 16) == 0) {
 		/* Update query and time info for user */
 		users[userid].last_pkt = time(NULL);
+		answer_waiting_query(dns_fds, userid);
 		memcpy(&(users[userid].q), q, sizeof(struct query));
 
 		/* Store remote IP number */
@@ -2065,6 +2080,7 @@ handle_raw_data(char *packet, int len, struct query *q, struct dnsfd *dns_fds, i
 
 	/* Update query and time info for user */
 	users[userid].last_pkt = time(NULL);
+	answer_waiting_query(dns_fds, userid);
 	memcpy(&(users[userid].q), q, sizeof(struct query));
 
 	/* copy to packet buffer, update length */
@@ -2081,7 +2097,7 @@ handle_raw_data(char *packet, int len, struct query *q, struct dnsfd *dns_fds, i
 }
 
 static void
-handle_raw_ping(struct query *q, int dns_fd, int userid)
+handle_raw_ping(struct query *q, int dns_fd, struct dnsfd *dns_fds, int userid)
 {
 	if (check_authenticated_user_and_ip(userid, q) != 0) {
 		return;
@@ -2090,6 +2106,7 @@ handle_raw_ping(struct query *q, int dns_fd, int userid)
 
 	/* Update query and time info for user */
 	users[userid].last_pkt = time(NULL);
+	answer_waiting_query(dns_fds, userid);
 	memcpy(&(users[userid].q), q, sizeof(struct query));
 
 	if (debug >= 1) {
@@ -2114,7 +2131,7 @@ raw_decode(char *packet, int len, struct query *q, int dns_fd, struct dnsfd *dns
 	switch (RAW_HDR_GET_CMD(packet)) {
 	case RAW_HDR_CMD_LOGIN:
 		/* Login challenge */
-		handle_raw_login(&packet[RAW_HDR_LEN], len - RAW_HDR_LEN, q, dns_fd, raw_user);
+		handle_raw_login(&packet[RAW_HDR_LEN], len - RAW_HDR_LEN, q, dns_fd, dns_fds, raw_user);
 		break;
 	case RAW_HDR_CMD_DATA:
 		/* Data packet */
@@ -2122,7 +2139,7 @@ raw_decode(char *packet, int len, struct query *q, int dns_fd, struct dnsfd *dns
 		break;
 	case RAW_HDR_CMD_PING:
 		/* Keepalive packet */
-		handle_raw_ping(q, dns_fd, raw_user);
+		handle_raw_ping(q, dns_fd, dns_fds, raw_user);
 		break;
 	default:
 		warnx("Unhandled raw command %02X from user %d", RAW_HDR_GET_CMD(packet), raw_user);
